@@ -379,7 +379,10 @@ def c12_f(ctx):
                     if tt[1] == buf and v[0] == 'sub' and v[1] == buf:
                         perms.append((n, v[2]))
                 if isinstance(n, ast.If):
-                    m = match_any(ex.term(n.test), ('_k != _x', '_k == _x'))
+                    tt_ = ex.term(n.test)
+                    while tt_[0] == 'unary' and tt_[1] == 'not':
+                        tt_ = tt_[2]
+                    m = match_any(tt_, ('_k != _x', '_k == _x'))
                     if m is not None and key in (m['k'], m['x']):
                         member = m['x'] if m['k'] == key else m['k']
             if not perms:
@@ -429,6 +432,17 @@ def c12_f(ctx):
                           'discrepancy column = key[argsort(key)]',
                           'the discrepancy column receives the un-permuted distances', fn=f,
                           node=st[0] if st else lo)
+        # the reported threshold / acceptance rate are refreshed from the re-sorted buffers
+        from ..values import alias as _alias
+        meta = [c for c in ctx.calls(f) if callee_name(c) == _alias('_update_state_meta')]
+        last_lo = loops[-1][0] if loops else None
+        okm2 = len(meta) >= 1 and last_lo is not None and all(
+            cfg_of(f).must_precede([cfg_of(f).by_stmt[id(last_lo)]], ctx.node(f, c))
+            for c in meta) and cfg_of(f).must_pass([ctx.node(f, c) for c in meta])
+        ctx.check(okm2, f, 'reported threshold refreshed after the re-sort',
+                  '_update_state_meta() after the buffers were permuted',
+                  'after the distances were recomputed the sampler keeps reporting the threshold '
+                  'of the previous distance', fn=f, node=meta[0] if meta else f.node)
         # distance updated before the recomputation; recomputed from the kept rows
         ud = ctx.calls(f, name='update_distance')
         gen = ctx.calls(f, name='generate')
